@@ -573,12 +573,21 @@ func pathNodes(occs []Occ) []*CNode {
 // code mentions are context: the effect "happens" for an assignment of the expected condition's atoms if it happens for
 // some assignment of the others. It returns a counterexample description when the two differ.
 func (v *SpecView) Equivalent(occs []Occ, expected string) (bool, string, error) {
+	return v.EquivalentCtx(occs, expected, nil, nil)
+}
+
+// EquivalentCtx is Equivalent with a frozen context: ctx names the atoms that were context when the row was written (the
+// message-kind dispatch, the enclosing loop test). An atom of the specification that is neither in the table's condition
+// nor in ctx is new: a guard put around the effect, or an extra way to reach it. For those the effect must not depend on
+// the atom at all - it happens for the assignments the table says whatever the new atom's value is. ctx == nil: every
+// other atom is context. record, when not nil, receives the other atoms (to regenerate the frozen lists).
+func (v *SpecView) EquivalentCtx(occs []Occ, expected string, ctx map[string]bool, record *[]string) (bool, string, error) {
 	toks, err := v.ParseText(expected)
 	if err != nil {
 		return false, "", fmt.Errorf("table condition %q: %v", expected, err)
 	}
 	want := ParseCanon(toks)
-	return equivalentNodes(PathCond(occs), pathNodes(occs), want)
+	return equivalentNodesCtx(PathCond(occs), pathNodes(occs), want, ctx, record)
 }
 
 // EquivalentExpr compares two expressions (an operator body with the table's).
@@ -616,6 +625,10 @@ func looksBoolean(n *CNode) bool {
 var intDomain = []int64{0, 1, 2, 3}
 
 func equivalentNodes(code func(env *cenv) bool, codeNodes []*CNode, want *CNode) (bool, string, error) {
+	return equivalentNodesCtx(code, codeNodes, want, nil, nil)
+}
+
+func equivalentNodesCtx(code func(env *cenv) bool, codeNodes []*CNode, want *CNode, ctx map[string]bool, record *[]string) (bool, string, error) {
 	wb, wi := map[string]bool{}, map[string]bool{}
 	want.collect(false, wb, wi)
 	cb, ci := map[string]bool{}, map[string]bool{}
@@ -654,7 +667,30 @@ func equivalentNodes(code func(env *cenv) bool, codeNodes []*CNode, want *CNode)
 	sort.Strings(declI)
 	sort.Strings(otherB)
 	sort.Strings(otherI)
-	if len(declB)+len(otherB)+2*(len(declI)+len(otherI)) > 22 {
+	if record != nil {
+		*record = append(append(*record, otherB...), otherI...)
+	}
+	// atoms that are neither the table's nor frozen context
+	var newB, newI []string
+	if ctx != nil {
+		keepB, keepI := otherB[:0:0], otherI[:0:0]
+		for _, k := range otherB {
+			if ctx[k] {
+				keepB = append(keepB, k)
+			} else {
+				newB = append(newB, k)
+			}
+		}
+		for _, k := range otherI {
+			if ctx[k] {
+				keepI = append(keepI, k)
+			} else {
+				newI = append(newI, k)
+			}
+		}
+		otherB, otherI = keepB, keepI
+	}
+	if len(declB)+len(otherB)+len(newB)+2*(len(declI)+len(otherI)+len(newI)) > 22 {
 		return false, "", fmt.Errorf("too many atoms (%d boolean, %d integer)", len(declB)+len(otherB), len(declI)+len(otherI))
 	}
 	env := &cenv{bools: map[string]bool{}, ints: map[string]int64{}}
@@ -685,13 +721,47 @@ func equivalentNodes(code func(env *cenv) bool, codeNodes []*CNode, want *CNode)
 		w := want.evalBool(env)
 		// exists an assignment of the other atoms under which the code does it
 		does := false
-		enum(otherB, otherI, 0, func() bool {
-			if code(env) {
-				does = true
+		if len(newB)+len(newI) == 0 {
+			enum(otherB, otherI, 0, func() bool {
+				if code(env) {
+					does = true
+					return false
+				}
+				return true
+			})
+		} else {
+			// ... whatever the new atoms' values are: the answer for every assignment of the new atoms must be the same
+			first := true
+			same := true
+			enum(newB, newI, 0, func() bool {
+				d := false
+				enum(otherB, otherI, 0, func() bool {
+					if code(env) {
+						d = true
+						return false
+					}
+					return true
+				})
+				if first {
+					does, first = d, false
+				} else if d != does {
+					same = false
+					return false
+				}
+				return true
+			})
+			if !same {
+				var parts []string
+				for _, k := range declB {
+					parts = append(parts, fmt.Sprintf("%s=%v", k, env.bools[k]))
+				}
+				for _, k := range declI {
+					parts = append(parts, fmt.Sprintf("%s=%d", k, env.ints[k]))
+				}
+				detail = fmt.Sprintf("for %s whether the specification does it depends on %s, which the protocol table does not know (a condition added around, or beside, the tabled decision)", strings.Join(parts, " "), strings.Join(append(append([]string{}, newB...), newI...), ", "))
 				return false
 			}
-			return true
-		})
+		}
 		if does != w {
 			var parts []string
 			for _, k := range declB {
